@@ -14,6 +14,20 @@ def fuzz(name, test, secs, **kw):
 
 
 PLAN = {
+    "C01": dict(
+        pkg="c01",
+        rule=("one item descriptor per case (all dynamic types the generator knows: nil, string, rune, numbers, bool, slices, maps, structs, pointers, nested cells to depth 3, "
+              "the 32-type interface matrix {String,GoString,Error,Height,TerminalCellWidth} by value and by pointer, pointer-receiver types) plus an optional "
+              "mutation of the item behind the cell's back; observation script NewCell/read/mutate/read/Update/read, stand-alone and inside a table, and the text as shown by the CSV renderer. "
+              "Oracle: text-form function written from the statement. Non-trivial: item implements >=2 text interfaces, or is a rune, nested cell or nil, or has empty text, or is mutated then updated. "
+              "Distinct: (kind, mask, pointer-ness, nesting depth, text hash, mutation)."),
+        level_text=("Generated-input search against a specification function (text-form dispatch written from the property statement), plus complete enumeration of the "
+                    "32x2 interface matrix with empty/non-empty texts and three mutation classes, plus native fuzzing of the texts. Exploration level."),
+        level_note="Trusts the harness' TextForm (30 lines), fmt's %v (used as the statement says), and that the materialised item types are representative of 'all dynamic types'.",
+        technique="property-based testing (rapid) against a specification function + exhaustive enumeration of the interface matrix + native Go fuzzing",
+        quick=[rapid("prop", "TestProp", 20000), enum("matrix", "TestEnum")],
+        thorough=[rapid("prop", "TestProp", 100000, shards=16), enum("matrix", "TestEnum"), fuzz("fuzz", "FuzzC01", 40)],
+    ),
     "C05": dict(
         pkg="c05",
         rule=("rapid-generated build histories (AddHeaders/AddRowItems/NewRow*/Row.Add before and after attach/AddRow/AddSeparator/AppendNewRow) "
